@@ -122,6 +122,11 @@ POLICIES = {
     'empty_later': ('drop', 'keep', 'fail'),
     # "(?: e ) ... do not capture what was parsed": are names / overrides inside e captured?
     'skipgroup_binds': ('keep', 'drop'),
+    # s%{e} (not the positive form) when an iteration fails after the cut that follows a separator:
+    # Appendix C / the C05 statement: "makes the repetition fail"; syntax.rst: "s%{e} is equivalent to
+    # s%{e}+|{}" with s%{e}+ parsing as "e {s ~ e}", whose cut is inside the braces, so that the second
+    # option {} still applies (result [] with nothing consumed).  Both are admissible.
+    'join_cut': ('fail', 'empty'),
 }
 DEFAULT_POLICY = {k: v[0] for k, v in POLICIES.items()}
 
@@ -134,6 +139,8 @@ DEVIATIONS = (
                                         # the first item of its scope
     'cut-escapes-group',                # ( ... ~ ... ) commits the option around the group
     'cut-lost-in-later-iteration',      # ~ in iteration >= 2 of a closure / in e after a separator
+    'optional-around-repetition-dropped',  # [ {e} ], [ s%{e} ], [ [e] ] parse as the inner expression, so a
+                                        # repetition that fails (after a cut) makes the optional fail
     'open-list-spliced',                # a list that is the value of a multi-item group operand of a name /
                                         # override (and hence of a rule whose value is such an override) is
                                         # not closed: it is spliced when it is the first item of its scope and
@@ -182,6 +189,8 @@ class _Acc(list):
 
 
 def _add(old, v, force_list, present):
+    if old is UNSPEC or (isinstance(old, list) and old and (v is UNSPEC or any(x is UNSPEC for x in old))):
+        return UNSPEC  # how an undetermined value accumulates is undetermined as well
     if isinstance(old, _Acc):
         return _Acc([*old, v])
     if isinstance(old, _Open):
@@ -336,6 +345,7 @@ class _Evaluator:
         self.dev_none = 'none-dropped-at-frame-start' in self.dev
         self.dev_cutlost = 'cut-lost-in-later-iteration' in self.dev
         self.dev_open = 'open-list-spliced' in self.dev
+        self.dev_optdrop = 'optional-around-repetition-dropped' in self.dev
         self.active = set()  # (rule, pos) being evaluated: re-entry = left recursion
         self.pat_cache = {}
         self.used_policy = set()  # which open aspects were actually exercised
@@ -515,6 +525,8 @@ class _Evaluator:
         return p, [], binds, cut  # "do not capture what was parsed"
 
     def e_opt(self, e, pos):
+        if self.dev_optdrop and e[1][0] in ('opt', 'closure', 'join', 'gather'):
+            return self.ev(e[1], pos)
         r = self._alternatives((e[1],), pos, True)
         if r is None:
             return pos, [], [], _NOCUT  # the empty option: contributes no items
@@ -612,12 +624,14 @@ class _Evaluator:
 
     def _pjoin(self, e, pos, keepsep):
         """e {s ~ e} -> (failure, cut seen at the level of the first e) | success tuple"""
+        self._later_cut = False
         r = self._body(e[2], pos)
         if type(r) is not tuple:
             return None, r
         p, v, binds, c = r
         values = [v]
         end = self._more(e[2], e[1], keepsep, p, values, binds, False)
+        self._later_cut = end is None
         if end is None:
             return None, c
         return (end, [values], binds, _NOCUT), c
@@ -631,6 +645,10 @@ class _Evaluator:
         # s%{e} = s%{e}+ | {} : the first option failed
         if c == _CUT:
             return _NOCUT
+        if self._later_cut:
+            self.used_policy.add('join_cut')
+            if self.policy['join_cut'] == 'fail':
+                return _NOCUT
         if c == _MAYBE:
             raise _UnspecifiedCase('a cut inside a lookahead/skip-to operand would decide the outcome')
         return pos, [[]], [], _NOCUT
